@@ -7,8 +7,14 @@ import hashlib
 from . import env
 
 KF_PATH = os.path.join(env.VERIF, "known_findings.json")
-EVID_DIR = os.path.join(env.VERIF, "evidence")
-REPLAY_DIR = os.path.join(env.VERIF, "replays")
+# runs against a scratch copy of the repository (VERIF_REPO=<dir>, mutation self-tests) must not overwrite the
+# evidence of the real tree: their output goes to $VERIF_OUT or a scratch directory outside /verif
+if env.REPO != "/repo" or os.environ.get("VERIF_OUT"):
+    _OUT = os.environ.get("VERIF_OUT") or os.path.join("/tmp", "verif-scratch-out", env.REPO.strip("/").replace("/", "_"))
+else:
+    _OUT = env.VERIF
+EVID_DIR = os.path.join(_OUT, "evidence")
+REPLAY_DIR = os.path.join(_OUT, "replays")
 SCHEMA = os.path.join(env.VERIF, "schemas", "EVIDENCE.schema.json")
 
 
@@ -157,5 +163,11 @@ def conclude(mod, tier, seed, specs, recs, dead, wall, replay=None, verbose=Fals
             lines.append(f"  case {i}: {json.dumps(v)[:1500]}")
         for i, u in undecided_cases[:5]:
             lines.append(f"  undecided case {i}: {u}")
+        seen = set()
+        for i, he in harness_errors:
+            last = he.strip().splitlines()[-1][:300]
+            if last not in seen and len(seen) < 8:
+                seen.add(last)
+                lines.append(f"  harness error case {i}: {he[-900:]}")
     code = {"held": 0, "violated": 1, "inconclusive": 2}[status]
     return code, lines
